@@ -19,7 +19,7 @@ ASSUMPTIONS = ["the slew limit per sample is v_per_sec*fs in data units (the fun
                "limit' case is not asserted (property: exceed; code: >=)",
                "exact-zero of the mute on a flagged sample is asserted to 1e-9 (FFT-based convolution may leave 1e-16)"]
 REQUIRED = {"contract:saturation_post": 300, "flags_compared": 300, "mute_zero_checked": 100, "same_flags_same_mute": 20,
-            "boundary_at_threshold": 50, "reader_ranges_checked": 16, "pipeline_runs": 2, "slew_only_twins": 20}
+            "boundary_at_threshold": 50, "reader_ranges_checked": 16, "pipeline_runs": 2, "slew_only_twins": 20, "arrays_shorter_than_taper": 10}
 CASE_TIMEOUT = 120.0
 
 _VIOL = []
@@ -326,6 +326,11 @@ def run_case(case):
         elif cls == "random":
             nc = int(rng.integers(1, 401))
             ns = int(rng.integers(20, 400))
+            if rng.random() < 0.2:
+                # arrays shorter than the taper (a few samples against the default 7, or a wide taper on a short snippet): still one mute value per sample
+                ns = int(rng.integers(6, 14)) if rng.random() < 0.5 else int(rng.integers(20, 60))
+                w = int(rng.integers(ns + 1, 3 * ns))
+                res.count("arrays_shorter_than_taper")
             p = float(rng.choice([0.2, 0.05, 0.5, 0.9, float(rng.uniform(0, 1))]))
             rngv = float(rng.uniform(1e-3, 8e-3))
             x = (rng.standard_normal((nc, ns)) * rngv * rng.choice([0.3, 0.7, 1.0])).astype(dt)
